@@ -1133,6 +1133,7 @@ func (u *Unit) atCallChecks(fr *Frame, st *State, c *ssa.CallCommon, fn Val, arg
 		u.counters["at@"+at.Callee+"#"+label]++
 		name := fmt.Sprintf("at@%s#%s/site%d", at.Callee, label, u.counters["at@"+at.Callee+"#"+label])
 		env := u.envFor(fr, st, u.entry, nil)
+		env.scopeTolerant = true
 		// the call's arguments by position: arg0, arg1, ... (receiver of a method call: recvarg)
 		if env.bound == nil {
 			env.bound = map[string]envVar{}
@@ -1150,7 +1151,30 @@ func (u *Unit) atCallChecks(fr *Frame, st *State, c *ssa.CallCommon, fn Val, arg
 			}
 			env.bound[fmt.Sprintf("arg%d", k)] = envVar{a, t}
 		}
-		u.addOblNamed(st, "at", name, "at the call of "+shortName(key)+": "+at.Clause.Src, pos, u.evalBoolF(env, st, at.Clause.Expr))
+		// a clause that names a local variable declared later than this call site says
+		// nothing about this site (it must apply to at least one site of the unit)
+		goal, inScope := func() (g *Term, ok bool) {
+			defer func() {
+				if r := recover(); r != nil {
+					if _, is := r.(notInScope); is {
+						g, ok = nil, false
+						return
+					}
+					panic(r)
+				}
+			}()
+			return u.evalBoolF(env, st, at.Clause.Expr), true
+		}()
+		if u.atApplied == nil {
+			u.atApplied = map[string]int{}
+		}
+		if !inScope {
+			u.counters["at@"+at.Callee+"#"+label]--
+			u.atApplied[at.Callee+"#"+label] += 0
+			continue
+		}
+		u.atApplied[at.Callee+"#"+label]++
+		u.addOblNamed(st, "at", name, "at the call of "+shortName(key)+": "+at.Clause.Src, pos, goal)
 	}
 }
 
